@@ -562,9 +562,9 @@ func ParseContracts(paths []string) (*Contracts, error) {
 			switch l.kw {
 			case "pure", "uf":
 				cur, curLoop = nil, nil
-				if l.kw == "uf" && !strings.Contains(l.text[strings.Index(l.text, ")")+1:], "=") {
+				if l.kw == "uf" && !strings.Contains(l.text[matchParen(l.text)+1:], "=") {
 					// uninterpreted function without a definition: uf name(p T, ...) ResultType
-					rp := strings.Index(l.text, ")")
+					rp := matchParen(l.text)
 					lp := strings.Index(l.text, "(")
 					if lp < 0 || rp < lp {
 						return nil, fail(fmt.Errorf("uf: missing parameter list"))
@@ -577,7 +577,7 @@ func ParseContracts(paths []string) (*Contracts, error) {
 							if len(f) == 1 {
 								params = append(params, Param{Name: f[0], Type: "int"})
 							} else {
-								params = append(params, Param{Name: f[0], Type: f[1]})
+								params = append(params, Param{Name: f[0], Type: strings.Join(f[1:], " ")})
 							}
 						}
 					}
@@ -801,4 +801,21 @@ func ParseContracts(paths []string) (*Contracts, error) {
 		}
 	}
 	return cs, nil
+}
+
+// matchParen returns the index of the parenthesis closing the first "(" of s (or -1).
+func matchParen(s string) int {
+	d := 0
+	for i := 0; i < len(s); i++ {
+		switch s[i] {
+		case '(':
+			d++
+		case ')':
+			d--
+			if d == 0 {
+				return i
+			}
+		}
+	}
+	return -1
 }
